@@ -225,7 +225,7 @@ func c26(c *vc.Ctx) {
 		c26CacheOpen(p)
 		c.CapNote("VERIF_C26_CACHE is set: bash results may come from a previous run (development aid)")
 	}
-	c.Rule = fmt.Sprintf("grammar G_exec: %d feature atoms (control flow, functions/return, locals, subshells, command substitution, pipelines of builtins, here-docs/strings, file redirections, case, [[ ]], test, arrays, set -e/pipefail, EXIT/ERR traps, break/continue levels; %d of them 'core', %d 'setup') composed through %d unary and %d binary contexts; quick: every atom in every unary context alone and after every setup atom, and every binary context over core x core; thorough adds binary contexts over all x all, setup + binary(core,core), two nested unary contexts (alone and after core setups), and two setups + unary(core). Every program ends with `echo end:$?`. Plus the 1-edit literal mutants (quick: integer neighbours and deletion of literal arguments of seeds <= 80 bytes; thorough: also replacement by x / '' and duplication, all seeds) of the string literals of interp/interp_test.go that parse, terminate, and already agree with bash unmutated. distinct = distinct (stdout,status) results of the interpreter", len(c26Atoms), c26CountAtoms(func(a c26Atom) bool { return a.Core }), c26CountAtoms(func(a c26Atom) bool { return a.Setup }), len(c26Unary), len(c26Binary))
+	c.Rule = fmt.Sprintf("grammar G_exec: %d feature atoms (control flow, functions/return, locals, subshells, command substitution, pipelines of builtins, here-docs/strings, file redirections, case, [[ ]], test, arrays, set -e/pipefail, EXIT/ERR traps, break/continue levels; %d of them 'core', %d 'setup') composed through %d unary and %d binary contexts; quick: every atom in every unary context alone and after each of 4 setup atoms (set -e, pipefail, EXIT trap, ERR trap), and every binary context over core x core; thorough: all setups in the first family, binary contexts over all x core and core x all, core setup + binary(core,core), two nested unary contexts, and two of the 4 setups + unary(core). Every program ends with `echo end:$?`. Plus the 1-edit literal mutants (quick: integer neighbours and deletion of literal arguments of seeds <= 80 bytes; thorough: also replacement by x / '' and duplication, all seeds) of the string literals of interp/interp_test.go that parse, terminate, and already agree with bash unmutated. distinct = distinct (stdout,status) results of the interpreter", len(c26Atoms), c26CountAtoms(func(a c26Atom) bool { return a.Core }), c26CountAtoms(func(a c26Atom) bool { return a.Setup }), len(c26Unary), len(c26Binary))
 	c.Assumptions = []string{
 		"bash 5.2.15 is the oracle; stderr is ignored on both sides; environment LC_ALL=C.utf8 PATH=/nonexistent HOME=/nonexistent, stdin empty, cwd a fresh scratch directory",
 		"external commands are unavailable on both sides (interp: exec handler returning 127; bash: empty PATH), so only builtins run",
@@ -247,8 +247,17 @@ func c26(c *vc.Ctx) {
 		if filter != "" {
 			c.CapNote("VERIF_C26_FILTER=%q restricts the enumeration", filter)
 		}
+		stride, seq := 0, 0
+		if v := os.Getenv("VERIF_C26_STRIDE"); v != "" { // development aid: every k-th program only
+			stride, _ = strconv.Atoi(v)
+			c.CapNote("VERIF_C26_STRIDE=%d restricts the enumeration", stride)
+		}
 		c26GenPrograms(thorough, func(desc, src string) {
 			if filter != "" && !strings.Contains(desc, filter) {
+				return
+			}
+			seq++
+			if stride > 1 && seq%stride != 0 {
 				return
 			}
 			n++
